@@ -768,13 +768,14 @@ func (g *Gen) Generate(id int) *Project {
 			}
 			f := &p.Main.Files[r.Intn(len(p.Main.Files))]
 			f.Imports = append(f.Imports, sp)
-			if g.TagShapes && r.Chance(1, 6) { // the same package mentioned in a second file
+			if g.TagShapes && r.Chance(1, 4) { // the same package mentioned in a second file
 				f2 := &p.Main.Files[r.Intn(len(p.Main.Files))]
 				if f2 != f {
 					sp2 := sp
-					if r.Bool() && alias != "" {
+					which := r.Intn(3)
+					if which == 0 && alias != "" {
 						sp2.Doc, sp2.Trailing, sp2.DeclDoc, sp2.Paren = g.tagComments(1, g.tagSpelling(alias)), nil, nil, true
-					} else if r.Bool() {
+					} else if which == 1 {
 						// the same path under another alias (or as a root import) in the second file
 						alias2 := aliases[r.Intn(len(aliases))]
 						sp2.Doc, sp2.Trailing, sp2.DeclDoc, sp2.Paren = g.tagComments(1, g.tagSpelling(alias2)), nil, nil, true
